@@ -79,7 +79,10 @@ pub fn universes_for(opts: &Opts) -> Vec<String> {
         }
         return v;
     }
-    let mut v = vec!["fixed".to_string(), "extra".to_string(), format!("s{}", opts.seed)];
+    let mut v = vec!["fixed".to_string(), "extra".to_string(), "zst".to_string(), format!("s{}", opts.seed)];
+    if let Ok(l) = std::env::var("VERIF_ONLY_UNIVERSE") {
+        return vec![l];
+    }
     if opts.tier == "thorough" {
         for k in 1..8 {
             v.push(format!("s{}k{}", opts.seed, k));
